@@ -108,7 +108,7 @@ pub fn present(bytes: &[u8], root: &PublicKey) -> Value {
                 o["ext_keys"] = json!(t.external_public_keys().iter().map(|k| k.as_ref().map(pubkey_json)).collect::<Vec<_>>());
                 o["block_count"] = json!(t.block_count());
                 o["root_key_id"] = json!(t.root_key_id());
-                o["sources"] = json!((0..t.block_count()).map(|i| t.print_block_source(i).unwrap_or_default()).collect::<Vec<_>>());
+                o["sources"] = json!((0..t.block_count()).map(|i| t.print_block_source(i).unwrap_or_else(|e| format!("ERR: {:?}", e))).collect::<Vec<_>>());
                 o["context"] = json!(t.context());
                 o["reserialized_identical"] = json!(t.to_vec().ok().as_deref() == Some(&bytes[..]));
                 if let Ok(u) = &b {
@@ -139,6 +139,14 @@ fn block_builder(rng: &mut StdRng, v33: bool) -> BlockBuilder {
     }
     if rng.gen_range(0..4) == 0 {
         bb = bb.context(format!("ctx{}", rng.gen_range(0..9)));
+    }
+    // rules, checks, scopes, collections: what the block message carries besides facts
+    if rng.gen_range(0..2) == 0 {
+        let plain = ["r($x) <- f0($x, $y), $x > 1;", "check if f1($a, $b) trusting previous;", "f2({1, 2}, \"s0\");", "check all f0($x, $y), $x >= 0;",
+            "check if f0($x, $y), $y.starts_with(\"s\") or f1(1, \"s1\") trusting authority;"];
+        let newer = ["f3(null, [1, {\"a\": 2}]);", "check if [1, 2].any($p -> $p > 1);", "reject if f9(1);", "check if {\"k\": 1}.get(\"k\") === 1;"];
+        let snippet: &str = if v33 && rng.gen() { *pick(rng, &newer) } else { *pick(rng, &plain) };
+        bb = bb.code(snippet).unwrap();
     }
     bb
 }
